@@ -6,6 +6,10 @@ ids = [p['id'] for p in props]
 
 # id -> (level, technique, text, note)
 CLAIMED = {
+ "C33": ("exploration", "schema model (tables, columns, rows, indexes, constraints) + audit of catalog listing, storage listing, both index registries, declared columns and probe queries after every statement",
+         "Random DDL/DML histories with name reuse and identifier-case variants; each statement's outcome and the complete observable schema state are compared with the model after every step.",
+         "Outcomes on which SQL engines legitimately differ (case-sibling names, index-name scope, dropping a column in use) are accepted either way; the resulting state must still be coherent."),
+
  "C12": ("exploration", "orphan scan + executable referential-action model (cascade closure, set null/default, end-of-statement restrict) compared with the engine's tables after every statement",
          "Random parent/child histories over five schema kinds (chain, self-reference, composite key, two parents, UNIQUE-column reference) and all ON DELETE/UPDATE actions; after each statement the tables are read back and checked for orphans, against the model state, and for unchanged data after a rejection.",
          "Row-at-a-time vs end-of-statement differences are marked ambiguous and decide nothing."),
